@@ -43,6 +43,10 @@ pub struct Case {
     /// (only when the clock shim is loaded: C05 workers)
     #[serde(default)]
     pub clock_jump_s: Option<u32>,
+    /// the request (POST/PUT/PATCH only) is sent chunked with a `Trailer:` announcement and a trailer section that
+    /// carries client-chosen copies of the claims and date headers
+    #[serde(default)]
+    pub trailer_spoof: bool,
 }
 
 /// move the process's wall clock forward (harness/csrc/clockshift.c, preloaded into the C05 workers); false = shim absent
@@ -111,9 +115,9 @@ pub fn strategy(spoof_range: std::ops::Range<usize>, key_prob: f64) -> impl Stra
         exempt_or(Just(gen::GUrl { path: String::new(), query: None })),
         prop::collection::vec(spoof(), spoof_range),
         prop::collection::vec(any::<u16>(), 8),
-        (crate::props::c04::query(), prop::option::weighted(0.2, (crate::props::c04::guid(), crate::props::c04::key_hex())), prop_oneof![8 => Just(0u8), 1 => Just(1u8), 1 => Just(2u8)], prop::option::weighted(0.2, prop::sample::select(vec![1u32, 59, 60, 61, 120, 300, 3600, 3660, 86400, 7 * 86400, 31 * 86400]))),
+        (crate::props::c04::query(), prop::option::weighted(0.2, (crate::props::c04::guid(), crate::props::c04::key_hex())), prop_oneof![8 => Just(0u8), 1 => Just(1u8), 1 => Just(2u8)], prop::option::weighted(0.2, prop::sample::select(vec![1u32, 59, 60, 61, 120, 300, 3600, 3660, 86400, 7 * 86400, 31 * 86400])), prop::bool::weighted(0.25)),
     )
-        .prop_map(|((dest, uid_sel, root), helper_sel, key, mut req, (exempt_method, exempt_url), spoofs, positions, (rich_query, rotate_to, no_host, clock_jump_s))| {
+        .prop_map(|((dest, uid_sel, root), helper_sel, key, mut req, (exempt_method, exempt_url), spoofs, positions, (rich_query, rotate_to, no_host, clock_jump_s, trailer_spoof))| {
             if let Some(m) = exempt_method {
                 req.method = m.to_string();
                 req.url = exempt_url;
@@ -127,11 +131,11 @@ pub fn strategy(spoof_range: std::ops::Range<usize>, key_prob: f64) -> impl Stra
                     req.url.query = rich_query;
                 }
             }
-            Case { rec: Rec { uid_sel, helper_sel, is_root: root.unwrap_or(uid_sel == 0), dest }, key, req, spoofs, positions, rotate_to, no_host, clock_jump_s }
+            Case { rec: Rec { uid_sel, helper_sel, is_root: root.unwrap_or(uid_sel == 0), dest }, key, req, spoofs, positions, rotate_to, no_host, clock_jump_s, trailer_spoof }
         })
 }
 
-pub const RULE_C05: &str = "generator: in 20% of the cases the wall clock of the worker process is moved forward (1 s .. 31 days; 59/60/61 s, hours and days included) between a first request and the request under test, through a preloaded clock_gettime shim that shifts CLOCK_REALTIME for harness and agent alike, and once more between two requests on one keep-alive connection; attributed, authorised requests (IMDS from root and non-root callers with the elevation flag following the uid or set independently; WireServer/HostGAPlugin from elevated callers; another destination) with no rule sets, a key latched in 70% of the cases, carrying 0-3 client-supplied copies of x-ms-azure-host-claims / -date / -authorization in random letter case, at random positions among the other headers, with values {the opposite or same elevation claim in two spellings, an old and a future RFC 1123 date, a well-formed authorization value with a random MAC, junk}. oracle on the raw bytes captured at the mock host: exactly one claims line whose value states the record's elevation; exactly one date line, RFC 1123, within 5 s of the harness clock; if a key is latched and the request is not signature-exempt exactly one authorization line, none of the client's values, and its MAC verifies (C04). non-trivial: at least one spoofed copy; distinct by hash of the case.";
+pub const RULE_C05: &str = "generator: a quarter of the POST/PUT/PATCH requests are sent chunked with a Trailer announcement and a trailer section carrying client-chosen claims and date fields (they must not reach the host in any part of the message); in 20% of the cases the wall clock of the worker process is moved forward (1 s .. 31 days; 59/60/61 s, hours and days included) between a first request and the request under test, through a preloaded clock_gettime shim that shifts CLOCK_REALTIME for harness and agent alike, and once more between two requests on one keep-alive connection; attributed, authorised requests (IMDS from root and non-root callers with the elevation flag following the uid or set independently; WireServer/HostGAPlugin from elevated callers; another destination) with no rule sets, a key latched in 70% of the cases, carrying 0-3 client-supplied copies of x-ms-azure-host-claims / -date / -authorization in random letter case, at random positions among the other headers, with values {the opposite or same elevation claim in two spellings, an old and a future RFC 1123 date, a well-formed authorization value with a random MAC, junk}. oracle on the raw bytes captured at the mock host: exactly one claims line whose value states the record's elevation; exactly one date line, RFC 1123, within 5 s of the harness clock; if a key is latched and the request is not signature-exempt exactly one authorization line, none of the client's values, and its MAC verifies (C04). non-trivial: at least one spoofed copy; distinct by hash of the case.";
 pub const RULE_C04: &str = "end-to-end half: the same rig with a key always latched and no spoofed headers; query strings from C04's colliding pools, header sets, bodies as Content-Length or chunked. oracle: the mock's raw bytes are parsed by the independent HTTP reader; exactly one authorization line 'Azure-HMAC-SHA256 <guid> <64 hex>'; HMAC_ref(key, canon_ref(received method, de-framed body, received header lines, received target)) equals it for one of the two admissible parameter orders (a transport-generated 'content-length: 0' on a body-less request may be in or out: counted as underspecified). 10% of the requests carry no Host header and 10% are HTTP/1.0 without one (hyper's server accepts both). In 20% of the cases the request is then sent twice on one keep-alive connection with the latched key replaced in between: the second one must announce and verify under the new key. Exempt uploads (PUT /vmAgentLog, POST /machine/?comp=telemetrydata, any letter case) must carry no proxy signature. non-trivial: >= 2 parameters or an escaped/valueless one, or >= 2 client headers, or a body with a line feed; distinct by hash of the case.";
 
 fn days_from_civil(y: i64, m: i64, d: i64) -> i64 {
@@ -234,6 +238,29 @@ pub fn eval(rig: &Rig, case: &Case, stats: &mut Stats, c04_focus: bool) -> Outco
         req.headers.insert(pos, (name, s.value.clone()));
     }
     let mut wire = req.wire(&target, &[]);
+    // client-chosen copies in the TRAILER section of a chunked request
+    let trailer_values: Option<(String, String)> = if case.trailer_spoof && matches!(req.method.as_str(), "POST" | "PUT" | "PATCH") {
+        Some((format!("{{ \"isRoot\": \"{}\"}}", !case.rec.is_root), "Thu, 01 Jan 1970 00:00:00 GMT".to_string()))
+    } else {
+        None
+    };
+    if let Some((c, d)) = &trailer_values {
+        let mut hs: Vec<(String, Vec<u8>)> = vec![("Host".to_string(), b"168.63.129.16".to_vec())];
+        for (n, v) in &req.headers {
+            hs.push((n.clone(), v.as_bytes().to_vec()));
+        }
+        hs.push(("Transfer-Encoding".into(), b"chunked".to_vec()));
+        hs.push(("Trailer".into(), format!("{}, {}", CLAIMS, DATE).into_bytes()));
+        let body: Vec<u8> = if req.body.is_empty() { b"body-before-the-trailer-section".to_vec() } else { req.body.clone() };
+        req.body = body.clone();
+        req.chunked = Some(vec![7]);
+        wire = crate::rawhttp::request_head(&req.method, &target, &hs);
+        let mut enc = crate::rawhttp::encode_chunked(&body, &[7]);
+        enc.truncate(enc.len() - 2);
+        enc.extend_from_slice(format!("{}: {}\r\n{}: {}\r\n\r\n", CLAIMS, c, DATE, d).as_bytes());
+        wire.extend_from_slice(&enc);
+        stats.class("request:chunked-with-proxy-owned-names-in-the-trailer-section");
+    }
     if case.no_host % 3 != 0 && (case.no_host % 3 == 1 || req.chunked.is_none() || req.body.is_empty()) {
         let line = b"Host: 168.63.129.16\r\n";
         if let Some(at) = wire.windows(line.len()).position(|w| w == line) {
@@ -287,6 +314,14 @@ pub fn eval(rig: &Rig, case: &Case, stats: &mut Stats, c04_focus: bool) -> Outco
         "host_received_head": String::from_utf8_lossy(&r.head.raw)})
     });
 
+    // ---- nothing the client chose under the proxy-owned names may reach the host, in whatever part of the message ----
+    if let Some((c, d)) = &trailer_values {
+        for v in [c, d] {
+            if r.raw.windows(v.len()).any(|w| w == v.as_bytes()) {
+                return Outcome::fail("headers:client-value-reached-the-host-in-the-trailer-section", format!("'{}' is in what the host received: {:?}", v, String::from_utf8_lossy(&r.raw[..r.raw.len().min(900)])));
+            }
+        }
+    }
     // ---- claims ----
     let claims = r.head.get_all(CLAIMS);
     if claims.len() != 1 {
